@@ -375,4 +375,9 @@ def run(repo, tier) -> Result:
     from ..framework_rules import check_settings_kept
 
     check_settings_kept("C08", res, repo)
+    # the members of a Hexital share ONE candlestick-type object over all its managers (a standalone indicator owns its own): anything
+    # the converter remembers about one candle list is applied to the others
+    from ..framework_rules import check_converter_stateless
+
+    check_converter_stateless("C08", res, repo)
     return res
